@@ -6,7 +6,9 @@ import (
 	e "github.com/aml-org/amf-custom-validator/pkg/events"
 )
 
-func ProcessInput(jsonldText string, debug bool, receiver *chan e.Event) (any, error) {
+func ProcessInput(jsonldText string, debug bool, receiver *chan e.Event) (normalizedInput any, err error) {
+	defer recoverAsError(&err)
+
 	dispatchEvent(e.NewEvent(e.InputDataParsingStart), receiver)
 	decoder := json.NewDecoder(bytes.NewBuffer([]byte(jsonldText)))
 	decoder.UseNumber()
@@ -22,7 +24,7 @@ func ProcessInput(jsonldText string, debug bool, receiver *chan e.Event) (any, e
 	if err != nil {
 		return nil, err
 	}
-	normalizedInput := Index(normalized)
+	normalizedInput = Index(normalized)
 	dispatchEvent(e.NewEvent(e.InputDataNormalizationDone), receiver)
 
 	return normalizedInput, nil
